@@ -165,6 +165,10 @@ pub fn run_family(name: &str, thorough: bool) -> Vec<Value> {
             decoder_family(&mut p, "message.from_bytes_be", &f.blind, thorough, true);
             p.dec("modulus".into(), "message.from_bytes_be", &modulus_r(), &["noncanonical"]);
         }
+        "forgery" => {
+            forgery::run_suite::<Sha>("sha256", &mut p.out);
+            forgery::run_suite::<Shake>("shake256", &mut p.out);
+        }
         "update_signature" => {
             let kp = KP::<Sha>::generate(IKM, None, None).unwrap();
             let m = msgs(3);
@@ -202,4 +206,117 @@ pub fn run_one(call: &str, ins: &[Vec<u8>]) -> String {
         return decode_call(call, &ins[0]);
     }
     "err:driver: unknown call".to_string()
+}
+
+// ---- C04: degenerate-element forgery family (no signature, public data only) -------------------------
+pub mod forgery {
+    use super::*;
+    use bls12_381_plus::{G1Projective, Scalar};
+    use elliptic_curve::group::Curve;
+    use elliptic_curve::hash2curve::ExpandMsg;
+    use zkryptium::bbsplus::ciphersuites::BbsCiphersuite;
+    use zkryptium::bbsplus::generators::Generators;
+    use zkryptium::utils::util::bbsplus_utils::{hash_to_scalar, i2osp};
+
+    fn domain<CS: BbsCiphersuite>(pk: &BBSplusPublicKey, gens: &Generators, header: &[u8], api_id: &[u8]) -> Scalar
+    where
+        CS::Expander: for<'a> ExpandMsg<'a>,
+    {
+        let l = gens.values.len() - 1;
+        let mut dom: Vec<u8> = Vec::new();
+        dom.extend_from_slice(&pk.to_bytes());
+        dom.extend_from_slice(&i2osp::<8>(l));
+        for g in gens.values.iter() {
+            dom.extend_from_slice(&g.to_affine().to_compressed());
+        }
+        dom.extend_from_slice(api_id);
+        dom.extend_from_slice(&i2osp::<8>(header.len()));
+        dom.extend_from_slice(header);
+        hash_to_scalar::<CS>(&dom, &[api_id, CS::H2S].concat()).unwrap()
+    }
+
+    /// Build, from PUBLIC data only, a proof whose points are degenerate and whose responses cancel the
+    /// verifier's recomputation; returns the JSON of a PoKSignature.
+    pub fn forge<CS: BbsCiphersuite>(pk: &BBSplusPublicKey, header: &[u8], ph: &[u8], claimed: &[Vec<u8>], idx: &[usize], u: usize, variant: &str) -> Value
+    where
+        CS::Expander: for<'a> ExpandMsg<'a>,
+    {
+        let api_id = CS::API_ID;
+        let l = u + idx.len();
+        let gens = Generators::create::<CS>(l + 1, Some(api_id));
+        let dm = BBSplusMessage::messages_to_scalar::<CS>(claimed, api_id).unwrap();
+        let dom = domain::<CS>(pk, &gens, header, api_id);
+        let q1 = gens.values[0];
+        let h = &gens.values[1..];
+        let mut bv = gens.g1_base_point + q1 * dom;
+        for (k, i) in idx.iter().enumerate() {
+            bv += h[*i] * dm[k].value;
+        }
+        let und: Vec<usize> = (0..l).filter(|i| !idx.contains(i)).collect();
+        let m_cap: Vec<Scalar> = (0..u).map(|j| Scalar::from(1000u64 + j as u64)).collect();
+        let r1_cap = Scalar::from(7u64);
+        let e_cap = Scalar::ZERO;
+        let (abar, bbar, d) = match variant {
+            "identity-Abar-Bbar" => (G1Projective::IDENTITY, G1Projective::IDENTITY, bv),
+            _ => (G1Projective::IDENTITY, G1Projective::IDENTITY, bv),
+        };
+        // T1 = Bbar*c + Abar*e^ + D*r1^ = D*r1^ ;  T2 = Bv*c + D*r3^ + sum H_j m^_j = sum H_j m^_j  when D = Bv, r3^ = -c
+        let t1 = d * r1_cap;
+        let mut t2 = G1Projective::IDENTITY;
+        for (j, i) in und.iter().enumerate() {
+            t2 += h[*i] * m_cap[j];
+        }
+        let mut c_arr: Vec<u8> = Vec::new();
+        c_arr.extend_from_slice(&i2osp::<8>(idx.len()));
+        for (k, i) in idx.iter().enumerate() {
+            c_arr.extend_from_slice(&i2osp::<8>(*i));
+            c_arr.extend_from_slice(&dm[k].value.to_be_bytes());
+        }
+        for p in [abar, bbar, d, t1, t2] {
+            c_arr.extend_from_slice(&p.to_affine().to_compressed());
+        }
+        c_arr.extend_from_slice(&dom.to_be_bytes());
+        c_arr.extend_from_slice(&i2osp::<8>(ph.len()));
+        c_arr.extend_from_slice(ph);
+        let c = hash_to_scalar::<CS>(&c_arr, &[api_id, CS::H2S].concat()).unwrap();
+        let r3_cap = -c;
+        json!({"BBSplus": {
+            "Abar": serde_json::to_value(&abar).unwrap(), "Bbar": serde_json::to_value(&bbar).unwrap(), "D": serde_json::to_value(&d).unwrap(),
+            "e_cap": serde_json::to_value(&e_cap).unwrap(), "r1_cap": serde_json::to_value(&r1_cap).unwrap(), "r3_cap": serde_json::to_value(&r3_cap).unwrap(),
+            "m_cap": serde_json::to_value(&m_cap).unwrap(), "challenge": serde_json::to_value(&c).unwrap(),
+        }})
+    }
+
+    pub fn run_suite<CS: BbsCiphersuite>(name: &str, out: &mut Vec<Value>)
+    where
+        CS::Expander: for<'a> ExpandMsg<'a>,
+    {
+        // an unrelated, honestly generated public key: the adversary has no signature under it
+        let kp = KP::<CS>::generate(IKM, Some(b"victim"), None).unwrap();
+        let pk = kp.public_key().clone();
+        let cases: Vec<(Vec<Vec<u8>>, Vec<usize>, usize)> = vec![
+            (vec![b"I am the admin".to_vec()], vec![0], 0),
+            (vec![b"claim-0".to_vec(), b"claim-2".to_vec()], vec![0, 2], 2),
+            (vec![], vec![], 3),
+        ];
+        for (ci, (claimed, idx, u)) in cases.iter().enumerate() {
+            let js = forge::<CS>(&pk, HEADER, PH, claimed, idx, *u, "identity-Abar-Bbar");
+            let js_s = js.to_string();
+            let pkb = pk.to_bytes();
+            let (claimed2, idx2) = (claimed.clone(), idx.clone());
+            let js2 = js.clone();
+            let outcome = guard(move || {
+                let pk = BBSplusPublicKey::from_bytes(&pkb).unwrap();
+                let proof: Pok<CS> = match serde_json::from_value(js2) {
+                    Ok(p) => p,
+                    Err(e) => return format!("err:deserialize:{e}"),
+                };
+                match proof.proof_verify(&pk, Some(&claimed2), Some(&idx2), Some(HEADER), Some(PH)) {
+                    Ok(()) => "ok:forged proof ACCEPTED".to_string(),
+                    Err(e) => format!("err:{e:?}"),
+                }
+            });
+            out.push(json!({"id": format!("{}-forgery-{}", name, ci), "call": "proof_verify(json)", "inputs": [hex::encode(js_s.as_bytes())], "outcome": outcome, "tags": ["forgery", "identity"]}));
+        }
+    }
 }
